@@ -10,6 +10,7 @@ import (
 	"hash/fnv"
 	"net"
 	"net/http"
+	"net/url"
 	"slices"
 	"sort"
 	"sync"
@@ -425,8 +426,13 @@ func (p *PeerPool) forwardRelease(ctx context.Context, owner, subscriberID strin
 		return fmt.Errorf("no address for peer %s", owner)
 	}
 
-	url := fmt.Sprintf("http://%s/pool/release/%s", peerAddr, subscriberID)
-	httpReq, err := http.NewRequestWithContext(ctx, "DELETE", url, nil)
+	// The subscriber ID travels as a query parameter: it is an opaque string
+	// (circuit-IDs contain '/', '%', '?', '#' ...) and as a raw path suffix it
+	// was cut at '?' and '#', decoded at '%' and redirected at "//" and "..",
+	// so that the owner released a different (unknown) ID, answered 204 and
+	// kept the address.
+	reqURL := fmt.Sprintf("http://%s/pool/release/?subscriber_id=%s", peerAddr, url.QueryEscape(subscriberID))
+	httpReq, err := http.NewRequestWithContext(ctx, "DELETE", reqURL, nil)
 	if err != nil {
 		return fmt.Errorf("create request: %w", err)
 	}
@@ -670,8 +676,12 @@ func (p *PeerPool) handleRelease(w http.ResponseWriter, r *http.Request) {
 		return
 	}
 
-	// Extract subscriber ID from path: /pool/release/{subscriber_id}
-	subscriberID := r.URL.Path[len("/pool/release/"):]
+	// Subscriber ID: query parameter (exact for every ID), or the path suffix
+	// /pool/release/{subscriber_id} for plain IDs
+	subscriberID := r.URL.Query().Get("subscriber_id")
+	if subscriberID == "" {
+		subscriberID = r.URL.Path[len("/pool/release/"):]
+	}
 	if subscriberID == "" {
 		http.Error(w, "subscriber_id required", http.StatusBadRequest)
 		return
